@@ -287,7 +287,7 @@ class Run:
         return f"g{self.sc['jobs'][x['jobs'][0][0]]['group']}"
 
     def hook_ev(self, e, group):
-        _, _, pid, name, jro, jsg, kind, batch = e
+        _, _, pid, name, jro, jsg, kind, batch = e[:8]
         env = []
         if jro is not None:
             env.append("JADE_RUNTIME_OUTPUT" if jro == self.vc.out else f"JADE_RUNTIME_OUTPUT={jro}")
@@ -389,7 +389,7 @@ class Run:
 
         # -- documented environment variables
         for e in hooks:
-            _, _, pid, name, jro, jsg, kind, batch = e
+            _, _, pid, name, jro, jsg, kind, batch = e[:8]
             if jro != vc.out:
                 self.bad("hook.env", f"the {name} command ran with JADE_RUNTIME_OUTPUT={jro!r}, expected the output directory {vc.out!r}")
             if name in ("node_setup", "node_teardown"):
